@@ -29,11 +29,9 @@ def generate(ctx, name, traces, depth, seed, **cfgkw):
 
 def replay(ctx, binp, sf, hcfg, name):
     cf = ctx.path(name + "_cfg.json"); json.dump(hcfg, open(cf, "w"))
-    of = ctx.path(name + "_res.json")
-    p = ctx.run([binp, sf, cf, of], timeout=3000)
-    if not os.path.exists(of):
+    res, p = common.run_chunked(ctx, sf, 1200, lambda piece, of: [binp, piece, cf, of])
+    if res is None:
         raise Inconclusive("c03 harness failed (rc=%d): %s" % (p.returncode, p.stderr[-1500:]))
-    res = json.load(open(of))
     if res.get("harness_errors"):
         raise Inconclusive("c03 harness error: %s" % res["harness_errors"][:2])
     return res
